@@ -1,7 +1,8 @@
-(* C01 — no stuck output.  Pinned statements: the ownership facts proved so far.  The global
-   statement (from every reachable state with all keys up, quiescence within a bound) is NOT proved:
-   it is covered by the kanata-level correspondence plus the end-state oracle, with one open known
-   finding (custom-release-lost, see known_findings.json): partial. *)
+(* C01 — no stuck output.  Pinned statements: the ownership facts, and the global statement as a whole-run theorem
+   for the fragment of C04 (layered keymaps): after every pressed key has been released and the pending events have
+   been applied, the keyberon layout model holds nothing and is quiet.  For the whole action grammar the global
+   statement is NOT proved: it is covered by the kanata-level correspondence plus the end-state oracle, with open
+   known findings (see known_findings.json): partial. *)
 From KV Require Import Kanata.Glue Proofs.LayoutBasics Proofs.C07Proofs Proofs.C08Proofs Proofs.C06Proofs Proofs.C01Proofs.
 
 Theorem C01_release_leaves_nothing_at_coord : forall c sts cu s,
@@ -34,3 +35,29 @@ Print Assumptions C01_quiet_is_absorbing_and_silent.
 Theorem C01_quiet_keeps_key_list : forall n l, keycodes (aged_n n l) = keycodes l.
 Proof. exact aged_n_keycodes. Qed.
 Print Assumptions C01_quiet_keeps_key_list.
+
+(* ---- the global statement on the fragment of C04 (Spec/Keymap.v, Proofs/C04Refine.v, Proofs/C01Fragment.v) ----
+   pending_after 0 is = 0: as many ticks as needed to apply every event; pset (arrivals is) = []: every coordinate that
+   was pressed has been released afterwards.  l_final runs Layout::event / Layout::tick over the inputs. *)
+From KV Require Import Spec.Keymap Proofs.C04Refine Proofs.C01Fragment.
+Theorem C01_fragment_no_stuck_keys : forall cfg pause is,
+  frag_cfg cfg = true -> hist_ok cfg 0 is = true ->
+  pending_after 0 is = 0%nat -> pset (arrivals is) = [] ->
+  exists l', l_final cfg (init_layout pause) is = Ok l' /\ keycodes l' = [] /\ states l' = [] /\ quiet l'.
+Proof. exact fragment_no_stuck_keys. Qed.
+Print Assumptions C01_fragment_no_stuck_keys.
+
+(* the same on the layered-keymap spec alone, for every configuration: everything held is tagged with a coordinate
+   that is down; nothing is held once every coordinate is up and every event applied *)
+Theorem C01_keymap_spec_no_stuck_keys : forall cfg is,
+  km_pending (km_final cfg km_init is) = [] -> pset (arrivals is) = [] ->
+  held (km_st (km_final cfg km_init is)) = [].
+Proof. exact spec_no_stuck_keys. Qed.
+Print Assumptions C01_keymap_spec_no_stuck_keys.
+
+Theorem C01_fragment_not_vacuous :
+  frag_cfg ex_cfg = true /\ hist_ok ex_cfg 0 (ex_hist ++ [KmEvent false (0, 1); KmEvent false (0, 2); KmEvent false (0, 4); KmTick; KmTick; KmTick]) = true /\
+  pending_after 0 (ex_hist ++ [KmEvent false (0, 1); KmEvent false (0, 2); KmEvent false (0, 4); KmTick; KmTick; KmTick]) = 0%nat /\
+  pset (arrivals (ex_hist ++ [KmEvent false (0, 1); KmEvent false (0, 2); KmEvent false (0, 4); KmTick; KmTick; KmTick])) = [].
+Proof. exact fragment_no_stuck_keys_not_vacuous. Qed.
+Print Assumptions C01_fragment_not_vacuous.
